@@ -147,7 +147,8 @@ Definition sref_ok (s : Q) (r : sref) : Prop :=
   no_nul (sr_name r) /\ str_fits (sr_name r) /\ Forall prop_ok (sr_props r) /\ props_fit (sr_props r) /\
   match aref_plan r with
   | Some a =>
-      (a_cols a < 32768)%N /\ (a_rows a < 32768)%N /\
+      (* at least one column and one row: the strict grammar (and the reader, which divides by them) needs it *)
+      (1 <= a_cols a < 32768)%N /\ (1 <= a_rows a < 32768)%N /\
       fits_pt (scale_pt s (sr_origin r)) /\
       fits_pt (scale_pt s (corner (sr_origin r) (a_v a) (a_cols a))) /\
       fits_pt (scale_pt s (corner (sr_origin r) (a_w a) (a_rows a))) /\
@@ -158,8 +159,10 @@ Definition sref_ok (s : Q) (r : sref) : Prop :=
 Definition scell_ok (s : Q) (c : scell) : Prop :=
   no_nul (sc_name c) /\ str_fits (sc_name c) /\ Forall (spoly_ok s) (sc_polys c) /\ Forall (spath_ok s) (sc_paths c) /\
   Forall (slabel_ok s) (sc_labels c) /\ Forall (sref_ok s) (sc_refs c).
+(* the two UNITS reals, as encoded, are positive (GdsRoundtrip.unit_ok: the strict grammar requires it) *)
 Definition slib_ok (L : slib) : Prop :=
-  no_nul (su_name L) /\ str_fits (su_name L) /\ Forall (scell_ok (su_scaling L)) (su_cells L).
+  no_nul (su_name L) /\ str_fits (su_name L) /\ Forall (scell_ok (su_scaling L)) (su_cells L) /\
+  unit_ok (gds_real_of_dbl (fst (su_units L))) /\ unit_ok (gds_real_of_dbl (snd (su_units L))).
 
 (* ---- element by element *)
 Lemma lower_poly_ok s p : spoly_ok s p ->
@@ -222,7 +225,7 @@ Proof.
     assert (Hovf : colrow_overflow a = false).
     { unfold colrow_overflow. apply orb_false_iff. split; apply N.ltb_ge; lia. }
     rewrite Hovf. unfold rep_ok_g. cbn [g_cols g_rows g_regular g_p2 g_p3].
-    split; [unfold fits16; lia|]. split; [unfold fits16; lia|]. split; [exact H2|]. split; [exact H3|].
+    split; [unfold count16; lia|]. split; [unfold count16; lia|]. split; [exact H2|]. split; [exact H3|].
     split; [reflexivity|].
     intro Hreg. destruct (Hrect Hreg) as [Hv Hw]. split; [apply scale_pt_snd_comp; exact Hv|apply scale_pt_fst_comp; exact Hw].
   - apply Forall_map_. apply Forall_in_. intros off Hin. specialize (Hplan off Hin).
@@ -251,8 +254,8 @@ Qed.
 
 Theorem lower_ok_lemma L : slib_ok L -> lib_ok (lower L) /\ lib_fits (lower L).
 Proof.
-  intros (Hnn & Hsf & Hcells). unfold lib_ok, lib_fits, lower. cbn [g_name g_units g_cells fst snd].
-  repeat split; try assumption; try apply gds_real_of_dbl_ok.
+  intros (Hnn & Hsf & Hcells & Hu0 & Hu1). unfold lib_ok, lib_fits, lower. cbn [g_name g_units g_cells fst snd].
+  split; [split; [exact Hnn|split; [exact Hu0|split; [exact Hu1|]]]|split; [exact Hsf|]].
   - apply Forall_map_. eapply Forall_impl; [|exact Hcells]. intros c Hc. split; [apply Hc|].
     apply (Forall_and_l _ _ _ (lower_cell_elems _ c Hc)).
   - apply Forall_map_. eapply Forall_impl; [|exact Hcells]. intros c Hc. split; [apply Hc|].
@@ -755,8 +758,9 @@ Ltac fits_leaf := vm_compute; repeat split; try discriminate; try (intro; discri
 
 Example ex_src_ok : slib_ok ex_src.
 Proof.
-  unfold slib_ok, ex_src. cbn [su_name su_scaling su_cells].
+  unfold slib_ok, ex_src. cbn [su_name su_scaling su_cells su_units fst snd].
   split; [repeat constructor; discriminate|]. split; [unfold str_fits; cbn; lia|].
+  split; [|split; vm_compute; split; reflexivity].
   constructor; [|constructor; [|constructor]].
   - unfold scell_ok. cbn [sc_name sc_polys sc_paths sc_labels sc_refs].
     split; [repeat constructor; discriminate|]. split; [unfold str_fits; cbn; lia|].
@@ -789,7 +793,7 @@ Proof.
       split; [repeat constructor; discriminate|]. split; [unfold str_fits; cbn; lia|]. split; [constructor|]. split; [constructor|].
       replace (aref_plan _) with (Some (Build_aplan 2 3 (0, 5) (- (10), 0))) by (vm_compute; reflexivity).
       cbn [a_cols a_rows a_v a_w sr_origin].
-      split; [reflexivity|]. split; [reflexivity|]. split; [fits_leaf|]. split; [fits_leaf|]. split; [fits_leaf|].
+      split; [lia|]. split; [lia|]. split; [fits_leaf|]. split; [fits_leaf|]. split; [fits_leaf|].
       intro H. vm_compute in H. discriminate H.
     + unfold sref_ok. cbn [sr_name sr_props].
       split; [repeat constructor; discriminate|]. split; [unfold str_fits; cbn; lia|].
